@@ -146,6 +146,48 @@ Example T16f_example :
     Some (Node (HBin Plus) [Node (HVar "z") []; Node (HBeta "b2" false) []])%string.
 Proof. vm_compute. repeat split; reflexivity. Qed.
 
+(* ---------------------------------------------------------------- T16i: histories *)
+(* Controllers outlive formulas.  In ANY legal state of the controllers -- in particular after any
+   history of index assignments (configure_catalogs, select_expression, operators, iteration,
+   direct calls on a Controller all reduce to Controller.set_index), whether the catalogs of e
+   were created before, between or after them -- the formula e reads as the formula written by
+   hand for the configuration it reports, that configuration belongs to e's product, and all
+   catalogs of e (selected branch or not) take the member it names. *)
+Theorem T16i_any_state_reads_handwritten : forall U st e,
+  wf_ctrls U = true -> st_ok U st -> incl (ctrls_of e) U ->
+  read U st e = subst (current_configuration U st e) e /\
+  valid_config (central e) (current_configuration U st e) = true /\
+  Forall (fun p => snd p = assoc (fst p) (current_configuration U st e) /\ snd p <> None)
+         (selected_names (index_in U st) e).
+Proof. exact any_state_reads_handwritten. Qed.
+Print Assumptions T16i_any_state_reads_handwritten.
+
+Theorem T16i_any_history_reads_handwritten : forall U st0 h st e,
+  wf_ctrls U = true -> st_ok U st0 -> run_sets U st0 h = Some st -> incl (ctrls_of e) U ->
+  read U st e = subst (current_configuration U st e) e /\
+  valid_config (central e) (current_configuration U st e) = true /\
+  Forall (fun p => snd p = assoc (fst p) (current_configuration U st e) /\ snd p <> None)
+         (selected_names (index_in U st) e).
+Proof. exact any_history_reads_handwritten. Qed.
+Print Assumptions T16i_any_history_reads_handwritten.
+
+Theorem T16i_set_index_keeps_state_legal : forall U st n i st',
+  NoDup (map fst U) -> st_ok U st -> set_index U st n i = Some st' -> st_ok U st'.
+Proof. exact set_index_ok. Qed.
+Print Assumptions T16i_set_index_keeps_state_legal.
+
+Example T16i_example :
+  let U := central ex_formula in
+  wf_ctrls U = true /\ st_ok U [0; 0] /\
+  run_sets U [0; 0] [("g", 1); ("in", 1); ("g", 0); ("g", 1)]%string = Some [1; 1] /\
+  run_sets U [0; 0] [("g", 2)]%string = None /\
+  current_configuration U [1; 1] ex_formula = [("g", "q"); ("in", "v")]%string /\
+  read U [1; 1] ex_formula = Node (HBin Plus) [Node (HVar "z") []; Node (HBeta "b2" false) []]%string.
+Proof.
+  cbv zeta. split; [vm_compute; reflexivity|]. split; [apply initial_state_ok; vm_compute; intros c [<-|[<-|[]]]; discriminate|].
+  vm_compute. repeat split; reflexivity.
+Qed.
+
 (* ---------------------------------------------------------------- T16g: operators are closed *)
 Theorem T16g_operators_closed : forall cs sd choice name o cfg s,
   wf_ctrls cs = true -> valid_config cs cfg = true ->
